@@ -10,11 +10,12 @@ import CpModel.Gen.C15Tables
                                leaves behind on a miss is the slot `sentinel`
                                (`antistampede_timeout = None`: a sentinel is never waited for).
   * `MemoryCache.expirations`: flat list of `(due, size, uri, key)` in insertion order (= dict
-                               order of the buckets under a monotone clock).  What `put` stores as
-                               the 3rd component is `uricache.selecting_headers` (the header NAMES)
-                               in the current tree, so the sweep deletes `store[uri][names]`; the
-                               flag `Cfg.sweepByNames` is probed from the live module on every run
-                               (`Gen.C15.sweepKeyIsNames`), theorems hold for both values.
+                               order of the buckets under a monotone clock).  The key the sweep
+                               deletes is the tuple of selecting header VALUES of the put (repaired
+                               code) or, when `Cfg.sweepByNames`, the selecting header NAMES (the
+                               code before repair 72a7a7e, which never found such a variant).  Which
+                               one the live module does is probed on every run
+                               (`Gen.C15.sweepKeyIsNames`); the theorems hold for both values.
   * `MemoryCache.cursize`    : an `Int`, exactly as Python computes it (never decremented by
                                `delete`, decremented by the sweep only when its `del` succeeds).
   * `get`, `put` (object / size limits, `selecting_headers` fixed at the first put, in
